@@ -5,7 +5,7 @@
 # the writer-owned details, decoded stream bytes) with the generator's ground truth / the strictly-read input.
 # Tie: the renumbering observed in real outputs must equal the extracted queue model's.
 import os
-import common, filecheck, pdfgen, dociso
+import common, filecheck, pdfgen, dociso, wmodel
 from pdfgen import Name, Ref, Str, Real, Stream
 
 ASSUMPTIONS = [
@@ -171,6 +171,35 @@ def run(chk):
     chk.cov["parts"]["rewrite-iso"]["corpus_inputs_skipped_not_strict_or_encrypted"] = skipped
     chk.cov["parts"]["rewrite-iso"]["writes_attempted"] = len(jobs)
     chk.count("queue-renumbering", len(qlines), set(qlines), samples=[{"case": qlines[0][:200]}] if qlines else [])
+
+    # ---- byte-exact correspondence of the extracted plain writer model with the real qpdf
+    bx = []
+    for name, data, doc in filecheck.gen_docs(rng, 10 if quick else 150):
+        p = os.path.join(wd, "bx_" + name + ".pdf")
+        open(p, "wb").write(data)
+        wmodel.describe(doc, p + ".doc", b"0123456789abcdef" if b"/ID" in data else None)
+        bx.append((name, p))
+    mres = common.run_lines(runner, ["write_docf %s %s" % (p + ".doc", p + ".model") for _, p in bx])
+
+    def real(t):
+        name, p = t
+        rc, se = filecheck.run_write(p, ["--object-streams=disable", "--compress-streams=n", "--decode-level=none"], p + ".real", extra=("--static-id",))
+        return rc
+    rcs = common.par_map(real, bx)
+    bdiff = []
+    for (name, p), mo, rc in zip(bx, mres, rcs):
+        if rc != 0 or not mo.startswith("ok"):
+            bdiff.append({"input": p, "qpdf_exit": rc, "model": mo[:100]})
+            continue
+        a, b = open(p + ".model", "rb").read(), open(p + ".real", "rb").read()
+        if a != b:
+            i = next((i for i, (x, y) in enumerate(zip(a, b)) if x != y), min(len(a), len(b)))
+            bdiff.append({"input": p, "first_difference_at": i, "model": a[max(0, i - 40):i + 40].hex(), "implementation": b[max(0, i - 40):i + 40].hex()})
+    if bdiff:
+        chk.violation({"kind": "correspondence-broken", "correspondence": "corr:C01:byte-exact-plain-writer", "differing_cases": len(bdiff),
+                       "first_cases": bdiff[:3], "note": "qpdf --static-id --object-streams=disable --compress-streams=n --decode-level=none differs byte-wise "
+                       "from the extracted writer model while the strict-reader oracle found the outputs equivalent to their inputs"}, no_input=True)
+    chk.count("byte-exact-writer-model", len(bx), set(n for n, _ in bx), samples=[{"input": bx[0][1]}])
 
 
 def replay(chk, rep):
